@@ -92,7 +92,61 @@ def kdf_unit():
     return Module9('C09_KDF', REPO, items, builtins=KDF_BUILTINS, oracle=True)
 
 
+def rc4_unit():
+    base = ClassInfo('RC4', 'tlslite.utils.rc4', 'RC4Base', 'rc4b_', [],
+                     ignore=['isBlockCipher', 'isAEAD', 'name', 'implementation'])
+    cls = ClassInfo('Python_RC4', 'tlslite.utils.python_rc4', 'RC4', 'rc4_',
+                    [('S', LZ), ('i', 'Z'), ('j', 'Z')], base='RC4')
+    p = U + 'python_rc4.py'
+    items = [
+        base,
+        (FnSig('RC4.__init__', 'rc4_base_init', [('keyBytes', 'bytes'), ('implementation', 'str')], 'None', kind='guard'), U + 'rc4.py'),
+        cls,
+        (FnSig('Python_RC4.__init__', 'rc4_init', [('keyBytes', 'bytes')], 'None'), p),
+        (FnSig('Python_RC4.encrypt', 'rc4_encrypt', [('plaintextBytes', 'bytes')], 'bytes'), p),
+        (FnSig('Python_RC4.decrypt', 'rc4_decrypt', [('ciphertext', 'bytes')], 'bytes'), p),
+    ]
+    return Module9('C09_RC4', REPO, items)
+
+
+BLOCK_FM = {
+    # self.rijndael is the key; the block function itself is an oracle (Base/C09_Oracle.v BlockOracle)
+    ('rijndael', 'encrypt'): ('bo_enc Orc {self} {0}', ['bytes'], 'bytes', False),
+    ('rijndael', 'decrypt'): ('bo_dec Orc {self} {0}', ['bytes'], 'bytes', False),
+}
+
+
+def aesmodes_unit():
+    base = ClassInfo('AES', 'tlslite.utils.aes', 'AESBase', 'aesb_', [],
+                     ignore=['isBlockCipher', 'isAEAD', 'block_size', 'implementation', 'name'])
+    cbc = ClassInfo('Python_AES', 'tlslite.utils.python_aes', 'AESCBC', 'cbc_',
+                    [('rijndael', 'bytes'), ('IV', 'bytes')], base='AES', field_methods=BLOCK_FM)
+    ctr = ClassInfo('Python_AES_CTR', 'tlslite.utils.python_aes', 'AESCTR', 'ctr_',
+                    [('rijndael', 'bytes'), ('IV', 'bytes'), ('_counter_bytes', 'Z'), ('_counter', 'bytes')],
+                    base='AES', field_methods=BLOCK_FM, props={'counter': '_counter'})
+    p, a = U + 'python_aes.py', U + 'aes.py'
+    items = [
+        base,
+        (FnSig('AES.__init__', 'aes_base_init', [('key', 'bytes'), ('mode', 'Z'), ('IV', 'bytes'), ('implementation', 'str')], 'None', kind='guard'), a),
+        (FnSig('AES.encrypt', 'aes_base_encrypt', [('plaintext', 'bytes')], 'None', kind='guard'), a),
+        (FnSig('AES.decrypt', 'aes_base_decrypt', [('ciphertext', 'bytes')], 'None', kind='guard'), a),
+        cbc,
+        (FnSig('Python_AES.__init__', 'cbc_init', [('key', 'bytes'), ('mode', 'Z'), ('IV', 'bytes')], 'None'), p),
+        (FnSig('Python_AES.encrypt', 'cbc_encrypt', [('plaintext', 'bytes')], 'bytes'), p),
+        (FnSig('Python_AES.decrypt', 'cbc_decrypt', [('ciphertext', 'bytes')], 'bytes'), p),
+        ctr,
+        (FnSig('Python_AES_CTR.__init__', 'ctr_init', [('key', 'bytes'), ('mode', 'Z'), ('IV', 'bytes')], 'None'), p),
+        (FnSig('Python_AES_CTR._counter_update', 'ctr_counter_update', [], 'None'), p),
+        (FnSig('Python_AES_CTR.encrypt', 'ctr_encrypt', [('plaintext', 'bytes')], 'bytes', fuel={0: 'len(plaintext) + 1'}), p),
+        (FnSig('Python_AES_CTR.decrypt', 'ctr_decrypt', [('ciphertext', 'bytes')], 'bytes'), p),
+    ]
+    return Module9('C09_AesModes', REPO, items, oracle='BlockOracle',
+                   builtins={'Rijndael': ('mk_rijndael {0} {1}', ['bytes', 'Z'], 'bytes', True)})
+
+
 UNITS = {
+    'C09_RC4': rc4_unit,
+    'C09_AesModes': aesmodes_unit,
     'C09_KDF': kdf_unit,
     'C09_ChaChaPoly': chachapoly_unit,
     'C09_Poly1305': poly1305_unit,
